@@ -35,6 +35,13 @@ def check_element(el, name, category):
         return True
 
 
+class _TagTable(dict):
+    """Elements of a selector for each focus tag (empty set if none)."""
+
+    def __missing__(self, tag):
+        return frozenset()
+
+
 class InternedMC(type):
     def __new__(cls, name, bases, dct):
         dct["_cache"] = {}
@@ -210,7 +217,9 @@ class Call(Selector):
         for cap in self.captures:
             for tag in cap.tags:
                 results[tag].add(cap)
-        return results
+        # Selectors are interned and shared: looking up a tag that is not
+        # there must not add it
+        return _TagTable(results)
 
     @cached_property
     def main(self):
